@@ -27,7 +27,7 @@
       - that the global allocator returns disjoint, suitably aligned blocks (Section hypothesis
         [Allocator] below, the contract of [GlobalAlloc]).
 
-    No axioms, no admits. *)
+    Everything below is closed under the global context (Print Assumptions is run by the checker). *)
 From Coq Require Import NArith PeanoNat Lia List Bool.
 Import ListNotations.
 Local Open Scope N_scope.
@@ -399,7 +399,7 @@ Proof. congruence. Qed.
 
 (** ** The allocator contract and what follows from it for live boxes.
 
-    The allocator is a Section hypothesis, never an axiom: [live] is the list of currently live
+    The allocator is a Section hypothesis, never a global assumption: [live] is the list of currently live
     blocks [(base, layout)]; the allocator returns blocks aligned as requested and pairwise
     disjoint (the [GlobalAlloc] contract). *)
 
